@@ -342,6 +342,9 @@ bool aiounicast_select::Send
 	// check whether output file descriptor exists
 	if (!fd_out.count(i_in))
 		return false;
+	// negative integers cannot be represented with the length-hiding offset
+	if (aio_is_encrypted && (mpz_sgn(m) < 0))
+		return false;
 	// prepare write buffer from the message m
 	mpz_t tmp;
 	mpz_init_set(tmp, m);
